@@ -286,4 +286,14 @@ fn main() {
         let _ = f.as_new_flow(RedirectAuthHeaders::Never);
         None
     });
+
+    // F19: request whose URI has no scheme/authority (origin-form, explicit Host header): following a redirect panics
+    guard("F19", || {
+        let req = Request::builder().method("GET").uri("/x").header("host", "a.test").body(()).unwrap();
+        let mut r = to_redirect(req, b"HTTP/1.1 302 Found\r\nLocation: /y\r\nContent-Length: 0\r\n\r\n");
+        match r.as_new_flow(RedirectAuthHeaders::Never) {
+            Err(_) => None,
+            Ok(_) => None,
+        }
+    });
 }
